@@ -178,6 +178,9 @@ HonestSet ==
         \cup { Honest("h-" \o ToString(a) \o "-" \o ToString(i) \o "-v" \o ToString(pr) \o (IF lk THEN "L" ELSE "N") \o (IF kg THEN "K" ELSE "P"),
                       Scn(base + 200 + pr * 4 + (IF lk THEN 2 ELSE 0) + (IF kg THEN 1 ELSE 0), a, i, 1, 5 + pr, 8 + pr, kg, pr, lk), Lens(base + 200 + pr))
                : pr \in 0..5, lk \in BOOLEAN, kg \in BOOLEAN }
+        \* "highest level" requested (0) and a BMC that answers the Open Session Request with the level it resolved that to
+        \cup { Honest("h-" \o ToString(a) \o "-" \o ToString(i) \o "-g" \o ToString(g) \o (IF lk THEN "L" ELSE "N"),
+                      Scn(base + 300 + g, a, i, 1, 6, 9, lk, 0, lk) @@ [grant |-> g], Lens(base + 300 + g)) : g \in {2, 4, 5}, lk \in BOOLEAN }
       extra(a, i, base) == IF ~Full THEN {} ELSE
         { Honest("hx-" \o ToString(a) \o "-" \o ToString(i) \o "-" \o ToString(u) \o "-" \o ToString(p),
                  Scn(base + 400 + u * 21 + p, a, i, 1, u, p, ((u + p) % 2) = 0, (u + p) % 6, ((u * p) % 2) = 0), Lens(base + u + p)) : u \in 0..16, p \in 0..20 }
@@ -230,7 +233,8 @@ DialOps(k, i) == CASE Rnd(k, i + 500) % 7 = 0 -> << [k |-> "call", api |-> "Dial
 OpAt(k, i, open) == LET r == Rnd(k, i) % 6 IN
   IF ~open THEN (CASE r \in {0, 1, 4} -> "openOK" [] r \in {2, 5} -> "openFailPw" [] OTHER -> "openFailStatus")
   ELSE (CASE r \in {0, 1} -> "cmd" [] r = 2 -> "cmdLost" [] r = 3 -> "closeOK" [] r = 4 -> "closeErr" [] OTHER -> "closeLost")
-CloseCall(S) == [k |-> "call", api |-> "Close", label |-> "close", target |-> "sess",
+\* (keepOnErr: the caller keeps the session value when Close fails, and may call Close on it again)
+CloseCall(S) == [k |-> "call", api |-> "Close", label |-> "close", target |-> "sess", keepOnErr |-> TRUE,
                  exp |-> [outcome |-> "any", netfn |-> 6, cmd |-> 60, body |-> S.bmcSid]]
 CloseReact(S, j, cc) ==
   [React0 EXCEPT !.datagrams = << Dg(SessPacket(S, LE32s(j), B(MsgRspBytes(129, 7, 0, 1, 0, 60, cc, <<>>)), Iv(S.k + j)),
@@ -244,6 +248,8 @@ OpSteps(S, op, j) ==
     [] op = "closeOK" -> << CloseCall(S), CloseReact(S, j, 0) >>
     [] op = "closeErr" -> << CloseCall(S), CloseReact(S, j, 135) >>
     [] op = "closeLost" -> << CloseCall(S), Lost >>
+    [] op = "closeAgainOK" -> << CloseCall(S), CloseReact(S, j, 0) >>
+    [] op = "closeAgainLost" -> << CloseCall(S), Lost >>
 RECURSIVE Life(_, _, _, _, _, _)
 Life(S, k, i, n, open, j) ==
   IF i > n THEN << [k |-> "call", api |-> "ConnClose", label |-> "connclose"] >>
@@ -265,7 +271,7 @@ RECURSIVE LifeSeq(_, _, _, _, _)
 LifeSeq(S, k, ops, i, j) ==
   IF i > Len(ops) THEN << [k |-> "call", api |-> "ConnClose", label |-> "connclose"] >>
   ELSE LET op == ops[i]
-           j2 == IF op = "openOK" THEN 1 ELSE IF op \in {"cmd", "cmdLost", "closeOK", "closeErr", "closeLost"} THEN j + 1 ELSE j
+           j2 == IF op = "openOK" THEN 1 ELSE IF op \in {"cmd", "cmdLost", "closeOK", "closeErr", "closeLost", "closeAgainOK", "closeAgainLost"} THEN j + 1 ELSE j
        IN DialOps(k, i) \o OpSteps(S, op, j) \o LifeSeq(S, k, ops, i + 1, j2)
 LifecycleXSet ==
   LET d == IF Full THEN 6 ELSE 4 IN
@@ -273,7 +279,7 @@ LifecycleXSet ==
         s == SetToSuite(q)
         S == Scn(13000 + (q % 500), s[1], s[2], 1, 5, 9, (q % 2) = 0, 4, TRUE) IN
     ScriptOf("lifex-" \o Name(p), "lifecycle", S, LifeSeq(S, 700 + (q % 200), p, 1, 1), [mut |-> "none"])
-    : p \in Paths(FALSE, d) }
+    : p \in Paths("closed", d) }
 
 \* ------------------------------------------- default path: no suites given => discovery, suite 17, else suite 3
 \* served by rules: cipher-suite chunks by list index, then the honest legs of whichever suite the library proposes
@@ -303,6 +309,23 @@ DefaultScript(id, k, adv17, api) ==
               THEN [k |-> "call", api |-> "NewSession", label |-> "open", args |-> [Username |-> SS.uname, Password |-> SS.pw, MaxPrivilegeLevel |-> SS.priv], exp |-> ExpSession(SS)]
               ELSE [NewSessionCall(SS, ExpSession(SS)) EXCEPT !.args = [@ EXCEPT !.CipherSuites = <<>>]]
   IN ScriptOf(id, "default", SS, << [k |-> "rules", rules |-> CipherRules(data) \o LegRules(S17, S3)], call, ExpectSession(SS) >> \o Commands(SS, <<2, 9>>), [mut |-> "none"])
+\* an explicit single-suite session, closed, and then an establishment with default preferences on the same connection: the
+\* defaults are what the second one proposes (17 if advertised, else 3), whatever the earlier session used
+PinnedThenDefault(id, k, adv17, api2) ==
+  LET S17 == Scn(13500 + k, 3, 4, 1, 4 + (k % 5), 7 + (k % 9), FALSE, 4, FALSE)
+      S3 == [S17 EXCEPT !.authAlg = "sha1", !.integAlg = "sha1", !.authNum = 1, !.integNum = 1, !.icvLen = 12, !.integLen = 12]
+      pinned == IF adv17 THEN S3 ELSE S3       \* the pinned suite is 3 (always advertised); the default choice differs when 17 is advertised
+      want == IF adv17 THEN S17 ELSE S3
+      data == (IF adv17 THEN StdRec(17, 3, 4, 1) ELSE <<>>) \o StdRec(3, 1, 1, 1) \o StdRec(8, 2, 2, 1)
+      call2 == IF api2 = "NewSession"
+               THEN [k |-> "call", api |-> "NewSession", label |-> "open", args |-> [Username |-> want.uname, Password |-> want.pw, MaxPrivilegeLevel |-> want.priv], exp |-> ExpSession(want)]
+               ELSE [NewSessionCall(want, ExpSession(want)) EXCEPT !.args = [@ EXCEPT !.CipherSuites = <<>>]]
+  IN ScriptOf(id, "default", want,
+              << [k |-> "rules", rules |-> CipherRules(data) \o LegRules(S17, S3)],
+                 \* (the script's key recipes are those of the second session, so the first one is only established, not used)
+                 NewSessionCall(pinned, ExpSession(pinned)),
+                 call2, ExpectSession(want) >> \o Commands(want, <<4>>), [mut |-> "none"])
+PinnedSet == { PinnedThenDefault("pin-" \o ToString(k) \o (IF a THEN "-17-" ELSE "-3-") \o api, k, a, api) : k \in 1..(IF Full THEN 6 ELSE 2), a \in BOOLEAN, api \in {"NewSession", "NewV2Session"} }
 DefaultSet == { DefaultScript("def-" \o ToString(k) \o (IF a THEN "-17-" ELSE "-3-") \o api, k, a, api) : k \in 1..(IF Full THEN 12 ELSE 3), a \in BOOLEAN, api \in {"NewSession", "NewV2Session"} }
 
 \* ------------------------------------------- two establishments on one connection with different credentials
@@ -329,6 +352,18 @@ FleetScript(id, S1) ==
            << NewSessionCall(S1, ExpSession(S1)) @@ [keepOpts |-> TRUE], HonestOsr(S1), HonestRakp2(S1), HonestRakp4(S1), ExpectSession(S1), CloseCall(S1), CloseReact(S1, 1, 0),
               [c2 EXCEPT !.args = [Password |-> S2.pw]] @@ [keepOpts |-> TRUE], HonestOsr(S2), HonestRakp2(S2), HonestRakp4(S2), ExpectSession(S2) >>, [mut |-> "none"])
 FleetSet == { LET s == SetToSuite(q) IN FleetScript("fleet-" \o ToString(q), Scn(16000 + q + Seed, s[1], s[2], 1, 3 + q, 6 + q, FALSE, 4, TRUE)) : q \in 1..9 }
+\* a malformed set-up reply met on a connection that has been through an establishment before (successful and closed, or
+\* failed on the password): nothing of the earlier exchange may stand in for what the reply lacks
+ReusedSet ==
+  LET a == 1 + (Seed % 3)
+      S == Scn(9300 + a, a, IF a = 3 THEN 4 ELSE a, 1, 5, 9, TRUE, 4, TRUE)
+      okFirst == << NewSessionCall(S, ExpSession(S)), HonestOsr(S), HonestRakp2(S), HonestRakp4(S), ExpectSession(S), CloseCall(S), CloseReact(S, 1, 0) >>
+      failFirst == << NewSessionCall(S, ExpErr(S, "ErrIncorrectPassword")), HonestOsr(S), WithDg(HonestRakp2(S), R2Dg(WrongPw(S))) >>
+      ms == { Mutated("sp1-" \o ToString(n), S, S, 1, ShortPayload(17, OpenSessionRspT(S), n), "error", "osr-short", FALSE) : n \in 0..35 }
+            \cup { Mutated("sp1z-" \o ToString(n), S, S, 1, NullWrapper(17, B([i \in 1..n |-> 0])), "error", "osr-short", FALSE) : n \in 1..8 }
+            \cup { Mutated("sp2-" \o ToString(n), S, S, 2, ShortPayload(19, Rakp2T(S), n), "error", "r2-short", FALSE) : n \in 0..(39 + DigestLen(S.authAlg)) }
+            \cup { Mutated("sp3-" \o ToString(n), S, S, 3, ShortPayload(21, Rakp4T(S), n), "error", "r4-short", FALSE) : n \in 0..(7 + S.icvLen) }
+  IN { [m EXCEPT !.id = "re-" \o @, !.steps = okFirst \o @] : m \in ms } \cup { [m EXCEPT !.id = "rf-" \o @, !.steps = failFirst \o @] : m \in ms }
 RekeySet ==
   { LET s == SetToSuite(q) IN
     Rekey("rekey-" \o ToString(q) \o "-" \o kind \o (IF kn THEN "-new" ELSE "-old"), Scn(13000 + q + Seed, s[1], s[2], 1, 4 + (q % 9), 1 + (q % 20), TRUE, 4, (q % 2) = 0), kind, kn)
@@ -356,9 +391,9 @@ LongCredSet ==
              [mut |-> IF kind = "pw" THEN "wrongPw" ELSE "wrongKg"])
     \* (16 bytes was the password field of IPMI v1.5; v2.0 allows 20: the first 16 / 20 bytes equal the BMC's)
     : q \in 1..9, kind \in {"pw", "kg"}, base \in {16, 20}, extra \in {1, 4, 12, 44} }
-Scripts == CASE Family = "honest" -> HonestSet \cup NoneSet \cup DefaultSet
+Scripts == CASE Family = "honest" -> HonestSet \cup NoneSet \cup DefaultSet \cup PinnedSet
              [] Family = "longuser" -> LongUserSet
-             [] Family = "rekey" -> RekeySet \cup LongCredSet \cup FleetSet
+             [] Family = "rekey" -> RekeySet \cup LongCredSet \cup FleetSet \cup ReusedSet
              [] Family = "lifecycle" -> LifecycleSet
              [] Family = "lifecyclex" -> LifecycleXSet
              [] Family = "long" -> LongSet
